@@ -43,8 +43,60 @@ var c28Space = &treeSpace{name: "c28", build: func() []expr.Expr {
 		out = append(out, x)
 		out = append(out, expr.NewLess(x, expr.One, x, expr.NewLess(expr.Zero, x, expr.One, x, 1), 2))
 	}
+	c28ChainFrom = len(out)
+	// chains of three nested nodes (every kind with children at every level, every width
+	// combination, the nested node in every operand slot, quiet leaves beside it): a function
+	// that accepts the innermost node and declines the one above it
+	quiet := []expr.Expr{expr.NewRegLoad("r2", 2), ir.ConstU(0x0102, 2)}
+	wrapIn := func(kind int, child expr.Expr, slot int, w expr.Width) (expr.Expr, bool) {
+		q0, q1 := quiet[0], quiet[1]
+		switch kind {
+		case 0:
+			if slot > 1 {
+				return nil, false
+			}
+			if slot == 0 {
+				return expr.NewBinary(expr.Add, child, q1, w), true
+			}
+			return expr.NewBinary(expr.Nand, q0, child, w), true
+		case 1:
+			args := []expr.Expr{q0, q1, q1, q0}
+			args[slot] = child
+			return expr.NewLess(args[0], args[1], args[2], args[3], w), true
+		default:
+			if slot > 0 {
+				return nil, false
+			}
+			return expr.NewMemLoad("mem", child, w), true
+		}
+	}
+	for k3 := 0; k3 < 3; k3++ {
+		for w3 := expr.Width(1); w3 <= 2; w3++ {
+			inner, _ := wrapIn(k3, expr.NewRegLoad("r1", 1), 0, w3)
+			for k2 := 0; k2 < 3; k2++ {
+				for w2 := expr.Width(1); w2 <= 2; w2++ {
+					for s2 := 0; s2 < 4; s2++ {
+						mid, ok := wrapIn(k2, inner, s2, w2)
+						if !ok {
+							continue
+						}
+						for k1 := 0; k1 < 3; k1++ {
+							for s1 := 0; s1 < 4; s1++ {
+								if root, ok := wrapIn(k1, mid, s1, 2); ok {
+									out = append(out, root)
+								}
+							}
+						}
+					}
+				}
+			}
+		}
+	}
 	return out
 }}
+
+// c28ChainFrom: index of the first chain tree (these take no part in the all-pairs Equal slice)
+var c28ChainFrom int
 
 func preorder(e expr.Expr, f func(expr.Expr)) {
 	f(e)
@@ -294,7 +346,7 @@ func c28Run(c c28Case) *eng.Fail {
 
 func init() {
 	checks["C28"] = eng.Check{
-		Rule: "On a space of ~6k trees (all 1-internal-node trees over 6 leaves x widths 1,2 x two memory keys; all 2-internal-node trees over 2 leaves; deep self-nested trees): Equal on ALL ordered pairs vs. equality of an independent canonical rendering; FindAll for each of the 5 node kinds vs. own pre-order walk; ReplaceAll for 5 kinds x 5 replacement functions (none/all/some/wrap/ignored) vs. own bottom-up model incl. the multiset of nodes f was applied to; Exprs/ExprsMany/EffectApply/EffectsApply (applied twice, input list must stay untouched) on RegStore/MemStore of every tree x 3 widths, with functions that change every operand, none, only the value and only the address. Non-trivial = Equal pair with equal kinds and widths; find/replace with at least one match.",
+		Rule: "On a space of ~6k trees (all 1-internal-node trees over 6 leaves x widths 1,2 x two memory keys; all 2-internal-node trees over 2 leaves; deep self-nested trees; plus ~600 chains of three nested nodes — every kind with children at every level, widths 1/2, every operand slot, quiet leaves beside — for FindAll/ReplaceAll): Equal on ALL ordered pairs of the first group vs. equality of an independent canonical rendering; FindAll for each of the 5 node kinds vs. own pre-order walk; ReplaceAll for 5 kinds x 5 replacement functions (none/all/some/wrap/ignored) vs. own bottom-up model incl. the multiset of nodes f was applied to; Exprs/ExprsMany/EffectApply/EffectsApply (applied twice, input list must stay untouched) on RegStore/MemStore of every tree x 3 widths, with functions that change every operand, none, only the value and only the address. Non-trivial = Equal pair with equal kinds and widths; find/replace with at least one match.",
 		Run: func(r *eng.Run) {
 			ts := c28Space.get()
 			n := len(ts)
@@ -306,6 +358,9 @@ func init() {
 			r.Par(n, func(i int) {
 				// Equal over all pairs: fast path comparing with precomputed renderings
 				for j := 0; j < n; j++ {
+					if (i >= c28ChainFrom || j >= c28ChainFrom) && j != i && j != i+1 {
+						continue // chain trees: compared with themselves and their neighbour only
+					}
 					var got bool
 					p, _ := eng.Catch(func() { got = exprtransform.Equal(ts[i], ts[j]) })
 					r.Eval(1)
